@@ -13,11 +13,13 @@ package zapcore
 //@ spec func minOver(a arr(int), k int) int
 //@ axiom minOver_base: forall a arr(int) :: minOver(a, 1) == a[0]
 //@ axiom minOver_step: forall a arr(int), k int :: k >= 1 ==> minOver(a, k+1) == (a[k] < minOver(a, k) ? a[k] : minOver(a, k))
-//@ axiom minOver_frame: forall a arr(int), k int, j int, v int :: j >= k ==> minOver(store(a, j, v), k) == minOver(a, k)
+//@ axiom minOver_frame natinduct k: forall a arr(int), k int, j int, v int :: k >= 1 && j >= k ==> minOver(store(a, j, v), k) == minOver(a, k)
 //@ spec func errFold(a arr(error), k int) error
 //@ axiom errFold_base: forall a arr(error) :: errFold(a, 0) == nil
 //@ axiom errFold_step: forall a arr(error), k int :: k >= 0 ==> errFold(a, k+1) == errAppend(errFold(a, k), a[k])
-//@ axiom errFold_frame: forall a arr(error), k int, j int, v error :: j >= k ==> errFold(store(a, j, v), k) == errFold(a, k)
+// (errFold_frame stays assumed: the base case needs 'errFold(a, 0) is THE nil error', and a nil interface is
+// characterised only by its tag in the SMT model; minOver_frame and countOK_frame are proved by induction)
+//@ axiom errFold_frame: forall a arr(error), k int, j int, v error :: k >= 0 && j >= k ==> errFold(store(a, j, v), k) == errFold(a, k)
 
 // ---------------------------------------------------------------------------
 // interface contracts
@@ -714,7 +716,7 @@ package zapcore
 //@ spec func countOK(e arr(error), k int) int
 //@ axiom countOK_base: forall e arr(error) :: countOK(e, 0) == 0
 //@ axiom countOK_step: forall e arr(error), k int :: k >= 0 ==> countOK(e, k+1) == countOK(e, k) + (e[k] == nil ? 1 : 0)
-//@ axiom countOK_frame: forall e arr(error), k int, j int, v error :: j >= k ==> countOK(store(e, j, v), k) == countOK(e, k)
+//@ axiom countOK_frame natinduct k: forall e arr(error), k int, j int, v error :: k >= 0 && j >= k ==> countOK(store(e, j, v), k) == countOK(e, k)
 
 // Constructor arguments are non-nil (assumption on callers of the public constructors).
 //@ func zapcore.NewCore
